@@ -63,45 +63,53 @@ Definition hist_eq (syms freqs : list Z) : Prop :=
 (** The number of used symbols of a frequency table (entries are uint64 counts, so min(1, f) is 1 exactly for f > 0). *)
 Definition nused (freqs : list Z) : Z := zsum (map (Z.min 1) freqs).
 
-(** * A checker for [ebits_ok] that runs in the extracted model (used by the driver to test, case by case, the
-      accuracy assumption made about the double/libm computation of num_expected_bits_).
+(** * A numerical checker for [ebits_ok] that runs in the extracted model (used by the driver to test, case by case,
+      the accuracy assumption made about the double/libm computation of num_expected_bits_).  It is NOT used by any
+      theorem and its soundness is not proved (it is part of the tested tie, like the generators).
     [log2_lo k p]: a lower bound of 2^k * log2 p in fixed point, by repeated squaring of the mantissa
-    m / 2^LMB in [1, 2), every product truncated (so the result can only be too small; proved in
-    Proofs/RansBound_proofs.v).
-    [log2_hi k p]: the same with every product rounded up (an upper bound; only used for the two-sided
-    comparison the driver prints, not by any theorem). *)
-Definition LMB : Z := 45.
+    m / 2^LMB in [1, 2), every product truncated (so the result can only be too small).
+    [log2_hi k p]: the same with every product rounded up (an upper bound). *)
+Definition LMB : Z := 40.
 Fixpoint log2_frac_lo (k : nat) (m : Z) : Z :=
   match k with
   | O => 0
-  | S k' => let m2 := (m * m) / 2 ^ LMB in
-            if m2 >=? 2 ^ (LMB + 1) then 2 ^ Z.of_nat k' + log2_frac_lo k' (m2 / 2) else log2_frac_lo k' m2
+  | S k' => let m2 := Z.shiftr (m * m) LMB in
+            if m2 >=? 2 ^ (LMB + 1) then 2 ^ Z.of_nat k' + log2_frac_lo k' (Z.shiftr m2 1) else log2_frac_lo k' m2
   end.
 Fixpoint log2_frac_hi (k : nat) (m : Z) : Z :=
   match k with
   | O => 1
-  | S k' => let m2 := (m * m + 2 ^ LMB - 1) / 2 ^ LMB in
-            if m2 >=? 2 ^ (LMB + 1) then 2 ^ Z.of_nat k' + log2_frac_hi k' ((m2 + 1) / 2) else log2_frac_hi k' m2
+  | S k' => let m2 := Z.shiftr (m * m + 2 ^ LMB - 1) LMB in
+            if m2 >=? 2 ^ (LMB + 1) then 2 ^ Z.of_nat k' + log2_frac_hi k' (Z.shiftr (m2 + 1) 1) else log2_frac_hi k' m2
   end.
 Definition log2_lo (k : nat) (p : Z) : Z :=
-  let e := Z.log2 p in e * 2 ^ Z.of_nat k + log2_frac_lo k (p * 2 ^ (LMB - e)).
+  let e := Z.log2 p in e * 2 ^ Z.of_nat k + log2_frac_lo k (Z.shiftl p (LMB - e)).
 Definition log2_hi (k : nat) (p : Z) : Z :=
-  let e := Z.log2 p in e * 2 ^ Z.of_nat k + log2_frac_hi k (p * 2 ^ (LMB - e)).
+  let e := Z.log2 p in e * 2 ^ Z.of_nat k + log2_frac_hi k (Z.shiftl p (LMB - e)).
 
-(** 2^k * cross, from above ([lg] = log2_lo) resp. from below ([lg] = log2_hi): sum_i f_i * (P * 2^k - lg p_i). *)
+(** 2^k * cross, from above ([lg] = log2_lo) resp. from below ([lg] = log2_hi): sum_i f_i * (P * 2^k - lg p_i).
+    Powers of two (probability 1 above all: the many symbols that occur once) need no squaring. *)
+Definition lg_cached (lg : Z -> Z) (k : nat) (p : Z) : Z :=
+  if p =? 1 then 0 else if p =? 2 ^ Z.log2 p then Z.log2 p * 2 ^ Z.of_nat k else lg p.
 Fixpoint cross_fix (lg : Z -> Z) (P : Z) (k : nat) (probs freqs : list Z) : Z :=
   match probs, freqs with
-  | p :: pr, f :: fr => (if p =? 0 then 0 else f * (P * 2 ^ Z.of_nat k - lg p)) + cross_fix lg P k pr fr
+  | p :: pr, f :: fr => (if (p =? 0) || (f =? 0) then 0 else f * (P * 2 ^ Z.of_nat k - lg p)) + cross_fix lg P k pr fr
   | _, _ => 0
   end.
-Definition LFB : nat := 32.
-Definition cross_hi (P : Z) (probs freqs : list Z) : Z := cross_fix (log2_lo LFB) P LFB probs freqs.
-Definition cross_lo (P : Z) (probs freqs : list Z) : Z := cross_fix (log2_hi LFB) P LFB probs freqs.
+Definition LFB : nat := 24.
+Definition cross_hi (P : Z) (probs freqs : list Z) : Z := cross_fix (lg_cached (log2_lo LFB) LFB) P LFB probs freqs.
+Definition cross_lo (P : Z) (probs freqs : list Z) : Z :=
+  cross_fix (lg_cached (log2_hi LFB) LFB) P LFB probs freqs.
 (** 5 * cross <= 8 * E + 96, decided with the upper bound of cross. *)
-Definition ebits_check (P : Z) (probs freqs : list Z) (E : Z) : bool :=
-  5 * cross_hi P probs freqs <=? (8 * E + 96) * 2 ^ Z.of_nat LFB.
-(** The two-sided comparison the driver prints: ceil(cross) lies in [ceil(cross_lo / 2^32), ceil(cross_hi / 2^32)];
+Definition ebits_check_with (chi E : Z) : bool := 5 * chi <=? (8 * E + 96) * 2 ^ Z.of_nat LFB.
+Definition ebits_check (P : Z) (probs freqs : list Z) (E : Z) : bool := ebits_check_with (cross_hi P probs freqs) E.
+(** The two-sided comparison the driver prints: ceil(cross) lies in [ceil(cross_lo / 2^24), ceil(cross_hi / 2^24)];
     the double computation may be off by rounding, hence one unit of slack on both sides. *)
 Definition ebits_window (P : Z) (probs freqs : list Z) : Z * Z :=
   let u := 2 ^ Z.of_nat LFB in
   ((cross_lo P probs freqs + u - 1) / u - 1, (cross_hi P probs freqs + u - 1) / u + 1).
+(** Both at once (the upper bound of cross computed once): (lo, hi, check). *)
+Definition ebits_report (P : Z) (probs freqs : list Z) (E : Z) : Z * Z * bool :=
+  let u := 2 ^ Z.of_nat LFB in
+  let chi := cross_hi P probs freqs in
+  ((cross_lo P probs freqs + u - 1) / u - 1, (chi + u - 1) / u + 1, ebits_check_with chi E).
